@@ -280,6 +280,9 @@ func c18Run(tp *core.Tape, e *core.Env) {
 func shardsCase(tp *core.Tape, e *core.Env) {
 	name := "prom"
 	n := tp.Choose("n_pods", 7)
+	if tp.Bool("many_pods", 1, 5) {
+		n = 10 + tp.Choose("n_pods_many", 4) // two-digit ordinals: name order is not ordinal order
+	}
 	port := core.Pick(tp, "port", 8080, 9999)
 	var pods []corev1.Pod
 	type want struct {
